@@ -97,6 +97,18 @@ class DBusClientConnection (txdbus.protocol.BasicDBusProtocol):
         Called when the transport loses connection to the bus
         """
         if self.busName is None:
+            # lost before the bus accepted us: whatever is outstanding (the
+            # Hello call) fails, and so does the Deferred of the factory
+            pending = getattr(self, '_pendingCalls', None)
+            if pending:
+                self._pendingCalls = {}
+                for d, timeout in pending.values():
+                    if timeout:
+                        timeout.cancel()
+                    d.errback(reason)
+            factory = getattr(self, 'factory', None)
+            if factory is not None and not factory.d.called:
+                factory._failed(reason)
             return
 
         for cb in self._dcCallbacks:
